@@ -2,6 +2,7 @@ package exec
 
 import (
 	"fmt"
+	"sort"
 
 	zerr "github.com/DemoHn/Zn/pkg/error"
 	"github.com/DemoHn/Zn/pkg/io"
@@ -156,7 +157,14 @@ func ExecVarInputText(source string) (r.ElementMap, error) {
 func ExecExpressionInputText(exprStrMap map[string]string) (r.ElementMap, error) {
 	vm := r.InitVM(globalValues)
 	result := make(map[string]r.Element)
-	for k, v := range exprStrMap {
+	// evaluate in a fixed (sorted) order, so that the reported error does not depend on map iteration
+	keys := make([]string, 0, len(exprStrMap))
+	for k := range exprStrMap {
+		keys = append(keys, k)
+	}
+	sort.Strings(keys)
+	for _, k := range keys {
+		v := exprStrMap[k]
 		evalResult, err := evalExpressionText(vm, v)
 		if err != nil {
 			return nil, err
